@@ -53,9 +53,10 @@ var (
 )
 
 func filterDependencies(n *component_definition.Property, metas []*component_definition.Meta) ([]*component_definition.Meta, error) {
-	//remove nil meta
+	//remove nil meta and the holder itself: self-injection is never allowed, and choosing the holder as the
+	//single candidate would hide another valid one
 	result := fas.Filter(metas, func(m *component_definition.Meta) bool {
-		return m != nil
+		return m != nil && !n.Holder.Meta.IsSelf(m)
 	})
 	if len(result) == 0 {
 		return nil, errors.Errorf("inject '%s' not found available components", n)
